@@ -33,7 +33,7 @@ CHECKS["C13"] = dict(
     level=E,
     rule="every factory call Projector(d,i), Identity(d), Generator(d,k), PosProjector(d,k), NegProjector(d,k) for d=2..6 and every admissible index, "
          "compared entry-wise with the dense 0/1 matrix; plus idempotence/orthogonality/completeness products; a case is non-trivial when the expected "
-         "operator is non-zero, distinct = distinct (factory,d,index)",
+         "operator is non-zero, distinct = distinct (factory,d,index) Every call also after a burst of unrelated library calls, and all 310 calls once more from a namespace-scope initialiser linked before the library (calls during static initialisation).",
     assumptions=["reference GGM basis in harness/ref.hpp (layout as stated in C01)", "index k=d of Pos/NegProjector accepted as identity or exception"],
     runs=[run("c13", "c13.cpp"), run("c13_asan", "c13.cpp", "asan")],
 )
@@ -43,7 +43,7 @@ CHECKS["C01"] = dict(
     rule="d=2..6; vectors: zero, all unit vectors (two signs/scales), all two-hot e_k+2e_l (k<l), three dense probes and their 1e+-150 (thorough: 1e-300, subnormal) rescalings; "
          "Hermitian matrices: E_jj, E_jk+E_kj, i(E_jk-E_kj), 2x2 blocks, dense probes; all ordered pairs of a ~40-vector subset x 8 scalars for + - unary- *s s* += -= *= /= ==; "
          "== over all dimension pairs. Oracle: documented GGM basis built independently (ref.hpp), trace projection, IEEE component-wise results. "
-         "non-trivial = some operand non-zero; distinct by hash of the operand components",
+         "non-trivial = some operand non-zero; distinct by hash of the operand components Nested expressions (v*s)*t, (s*v)*t, -(v*s), (v*s)+-(w*t), (v+-w)*s, chained *= and /= over all ordered pairs of an 11-value scalar alphabet incl. 1e+-200, 1e+-300, subnormal, signed zero: each sub-expression rounded on its own.",
     assumptions=["finite inputs only", "arbitrary reals covered through linearity, which is itself checked on the two-hot/probe/pair grids"],
     runs=[run("c01", "c01.cpp"), run("c01_asan", "c01.cpp", "asan", args=["--reduced"])],
 )
@@ -62,7 +62,7 @@ CHECKS["C03"] = dict(
     level=E,
     rule="d=2..6; every diagonal spectrum over the level alphabet {-1,0,2.5}^d (thorough {-1,0,1,2.5}^d: all degeneracy patterns) plus large (1e3), tiny (1e-6) and incommensurate spectra; "
          "t in {0,+-0.3,1,-2.5,7,+-1e3,1e-8}; A over all basis vectors and three dense probes; both forms (Evolve(H,t); PrepareEvolve+Evolve(buffer)); H built by the reference projection. "
-         "Oracle: B_jk=A_jk exp(i(E_j-E_k)t) entry-wise; t=0 identity; group law on (t1,t2) pairs; scalar products of evolved probe pairs. non-trivial = non-zero spectrum, t!=0, A!=0",
+         "Oracle: B_jk=A_jk exp(i(E_j-E_k)t) entry-wise; t=0 identity; group law on (t1,t2) pairs; scalar products of evolved probe pairs. non-trivial = non-zero spectrum, t!=0, A!=0 Reciprocal scalings (S*E, t/S), S in {1e+-16, 2^60, 4e17, 1e+-100}; output buffers with two garbage pre-fills; results consumed by += / -=.",
     assumptions=["H diagonal (documented precondition)", "finite inputs"],
     runs=[run("c03", "c03.cpp", shards=8), run("c03_asan", "c03.cpp", "asan", args=["--reduced"])],
 )
@@ -72,7 +72,7 @@ CHECKS["C11"] = dict(
     rule="d=2..6; every spectrum in {0,1,2,4}^d (all degeneracy patterns) plus an incommensurate and a tiny (1e-6) spectrum; averaging PrepareEvolve over t x scale in {0,.37,1.21,3.3,1e9,-1.21}; "
          "LowPassFilter and AvgRampFilter over cutoff x ramp in {0,.1,.5c,c,1.5c,-.25c} (x t for the phase filter) started from a buffer of ones; interval PrepareEvolve over four intervals. "
          "Pair order recovered from the library's own unaveraged table on an incommensurate spectrum. Oracle: exact threshold sets, multipliers 1/ramp/0, closed-form interval average, finiteness. "
-         "threshold ties (|phase|==|scale| up to 1e-12) are skipped and counted. non-trivial = non-zero spectrum; distinct by (spectrum, parameters)",
+         "threshold ties (|phase|==|scale| up to 1e-12) are skipped and counted. non-trivial = non-zero spectrum; distinct by (spectrum, parameters) Ten intervals incl. symmetric, narrow and far from the origin ([2^27,2^27+1], [4096,4096+2^-10]); reference average exp(i a tm) sinc(a h) in long double, accepted error without 1/(a*range) amplification.",
     assumptions=["H diagonal", "finite inputs", "exact ties at a hard threshold are not decided"],
     runs=[run("c11", "c11.cpp", shards=8), run("c11_asan", "c11.cpp", "asan", args=["--reduced"])],
 )
@@ -82,7 +82,7 @@ CHECKS["C06"] = dict(
     rule="all 35 (d,i,j) plane-rotation kernels x (theta,delta) in a 9x9 angle grid (quick: 4x4 for d=5,6) x (all basis vectors + 3 probes); mixing matrices for parameter sets "
          "{all zero, every single pair x 4x4 angles/phases, three all-pairs-distinct assignments} in every d: unitarity, RotateToB1/B0, B0(B1)=id, Rotate(U), UTransform(U), UDaggerTransform(U), "
          "both WeightedRotation overloads, scalar product and identity component; parameter store: all index pairs 0..8 for angle/phase/energy difference set+get. "
-         "Oracle: dense R^dagger A R, U^dagger A U, U A U^dagger with the U the library returns. non-trivial = non-zero angle / non-zero parameter set",
+         "Oracle: dense R^dagger A R, U^dagger A U, U A U^dagger with the U the library returns. non-trivial = non-zero angle / non-zero parameter set Small angles (1e-9, -3e-8, 2pi-2e-9) for every plane and as parameter sets; Yd aliasing the rotated vector; strided matrix views; update histories on one Const.",
     assumptions=["product order of the mixing matrix is taken from the library (the statement fixes unitarity and mutual consistency only)", "i<j for plane rotations"],
     runs=[run("c06", "c06.cpp", shards=8), run("c06_asan", "c06.cpp", "asan", args=["--reduced"])],
 )
@@ -112,7 +112,7 @@ CHECKS["C17"] = dict(
     rule="nx = 2..65 (every value: all parity patterns of nx-1) x {linear, log} x (a,b) in {(0,1),(-3,5),(1,1e4),(1e-3,7.5),(2,2+1e-9)} (log only a>0) plus three user-supplied irregular sorted grids per nx "
          "and their unsorted / wrong-size variants; lookup argument: every node, nextafter on both sides of every node, mid and quarter points of every interval, just outside and far outside both ends. "
          "Oracle: monotone, ends within a few ulp, equal spacing in x / log x, user grid stored bit-exact, bad input rejected with the grid untouched; Get_i(x)=i with i<=nx-2 and x_i<=x<=x_{i+1}; outside throws. "
-         "distinct by (grid, x)",
+         "distinct by (grid, x) All histories of up to 3 of 8 grid-changing operations (lin, log, user grids, move assignment / construction) on one object for nx in {2,3,5,9,17}: nodes bit-identical to a fresh object's, full lookup sweep after every operation.",
     assumptions=["range taken as [x_first,x_last] of the stored nodes", "nx<=65"],
     runs=[run("c17", "c17.cpp"), run("c17_asan", "c17.cpp", "asan", args=["--reduced"])],
 )
@@ -122,7 +122,7 @@ CHECKS["C05"] = dict(
     rule="d in {2,3,6} (thorough 2..6); grids: linear nx in {2,3,4,5,7}, log nx in {2,3,5}, three irregular user grids; time configurations (t_ini,elapsed,numerics) in 7 combinations reached through Evolve; "
          "node states = distinct probes per node and rho (2 rhos); operators = all basis vectors + probe; x = every node, mid/quarter/0.9 points, nextafter inside both ends; outside = nextafter/near/far on both sides; "
          "all 7 overloads; 125 dimension sequences of three solvers queried alternately on a fresh thread (thread-local scratch). Oracle: dense Tr(e^{-iH0 tau} rho e^{iH0 tau} O), reference bracket by linear scan, "
-         "H0 at x itself; agreement at nodes; unreachable-scale averaging == plain; reachable scale consistent with the averaged table; outside must throw on both sides. distinct by (grid, time cfg, node/x, operator)",
+         "H0 at x itself; agreement at nodes; unreachable-scale averaging == plain; reachable scale consistent with the averaged table; outside must throw on both sides. distinct by (grid, time cfg, node/x, operator) Every grid reached through six histories on the solver object (vector / natural overload on a fresh object, after an earlier lin / log / user grid with x-queries, by move assignment over a used object).",
     assumptions=["strictly increasing grids with >=2 nodes", "H0 diagonal", "stored state read through the derived class is the oracle's input"],
     runs=[run("c05", "c05.cpp", shards=8), run("c05_asan", "c05.cpp", "asan", args=["--reduced"])],
 )
